@@ -40,7 +40,8 @@ Finish(prog, acc, final) ==
   IF st.phase # "done" THEN Fail(acc, "not-done")
   ELSE IF final # st.size THEN Fail(acc, "final-sizes")
   ELSE IF ~WidthSafeSt(prog, st) THEN Fail(acc, "width-unsafe") ELSE acc
-Judge(t) == LET r == Finish(t.prog, FoldLeft(LAMBDA a, e : StepEv(t.prog, a, e), [st |-> Init0(t.prog), ok |-> TRUE, why |-> "", at |-> 0], t.events), t.final)
+Judge(t) == LET f == FoldLeft(LAMBDA a, e : StepEv(t.prog, a, e), [st |-> Init0(t.prog), ok |-> TRUE, why |-> "", at |-> 0], t.events)
+                r == IF t.partial THEN f ELSE Finish(t.prog, f, t.final)        \* partial: a prefix of the events of a run that was cut off
             IN [id |-> t.id, ok |-> r.ok, why |-> r.why, at |-> r.at]
 VARIABLE x
 Init == x = 0 /\ ndJsonSerialize(IOEnv.OUT_FILE, [k \in DOMAIN Batch |-> Judge(Batch[k])])
